@@ -353,6 +353,49 @@ func init() {
 		exec: func(w *World, st *Step) {}})
 }
 
+func init() {
+	// tinysubset: a bitmap holding one to three values that another bitmap already contains,
+	// listed late in an aggregate: the aggregate must not change and must stay well-formed
+	reg(&opDef{name: "tinysubset", tag: "C11",
+		gen: func(w *World, r *Rng) (Step, bool) {
+			a := w.nonEmptySlot(r)
+			ks := w.B[a].M.Keys()
+			if len(ks) == 0 {
+				return Step{}, false
+			}
+			k := ks[r.Intn(len(ks))]
+			words := w.B[a].M.ChunkWords(k)
+			t := (a + 1 + r.Intn(len(w.B)-1)) % len(w.B)
+			x := (t + 1 + r.Intn(len(w.B)-1)) % len(w.B)
+			if x == a {
+				x = (x + 1) % len(w.B)
+				if x == t {
+					x = (x + 1) % len(w.B)
+				}
+			}
+			steps := []Step{{Op: "clear", S: []int{t}}}
+			n := 1 + r.Intn(3)
+			start := r.Intn(65536)
+			for i := 0; i < 65536 && n > 0; i++ {
+				p := (start + i*7919) % 65536
+				if words[p>>6]&(1<<(uint(p)&63)) != 0 {
+					steps = append(steps, Step{Op: "add", S: []int{t}, A: []uint64{uint64(k)<<16 | uint64(p), 0}})
+					n--
+				}
+			}
+			if r.Bool() {
+				steps = append(steps, Step{Op: "runopt", S: []int{a}})
+			}
+			d := w.slot(r)
+			list := [][]int{{a, x, t}, {a, a, t}, {x, a, t, t}, {a, t}, {t, a, x}}[r.Intn(5)]
+			steps = append(steps, Step{Op: "agg", S: append([]int{d}, list...), A: []uint64{uint64(r.Intn(7)), uint64(workerPool[r.Intn(len(workerPool))])}})
+			w.pending = append(w.pending, steps[1:]...)
+			w.probe("tinysubset-scenario")
+			return steps[0], true
+		},
+		exec: func(w *World, st *Step) {}})
+}
+
 func itoa(n int) string {
 	if n == 0 {
 		return "0"
